@@ -1,4 +1,5 @@
 import CTV.Lemmas.FrontEnd
+import CTV.Model.HandlerSpec
 import CTV.Rfc6962.Wire
 /-!
 # C06 — the log front end presents one verifiable, append-only history
@@ -252,7 +253,9 @@ theorem consistency_at (b : Backend) (m n : Nat) (hmn : m ≤ n) (hn : n ≤ b.l
   have hvl : (b.values.take n).length = n := by simp [Backend.values]; omega
   have hc := verifyConsistency_complete leafH nodeH emptyH (b.values.take n) m (by rw [hvl]; exact hmn)
   rw [hvl, List.take_take, Nat.min_eq_left hmn] at hc
-  unfold getConsistency handleConsistency Gen.parseGetSTHConsistencyRange
+  unfold getConsistency handleConsistency
+  rw [Gen.parseGetSTHConsistencyRange_eq_spec]
+  unfold Spec.parseGetSTHConsistencyRange
   have e1 : ¬ ((m : Int) < 0 ∨ (n : Int) < 0) := by omega
   have e2 : ¬ ((n : Int) < (m : Int)) := by omega
   simp only [Bool.false_eq_true, if_false, Bool.or_eq_true, decide_eq_true_eq, e1, e2]
@@ -311,7 +314,9 @@ theorem inclusion_at (b : Backend) (i n : Nat) (hi : i < n) (hn : n ≤ b.leaves
   have hver := verifyInclusion_complete leafH nodeH emptyH (b.values.take n) i b.leaves[i].value hd
   rw [hvl] at hver
   refine ⟨b.leaves[i], path leafH nodeH emptyH i (b.values.take n), ?_, hl, hver⟩
-  unfold getEntryAndProof handleEntryAndProof Gen.parseGetEntryAndProofParams
+  unfold getEntryAndProof handleEntryAndProof
+  rw [Gen.parseGetEntryAndProofParams_eq_spec]
+  unfold Spec.parseGetEntryAndProofParams
   have e1 : ¬ ((n : Int) ≤ 0) := by omega
   have e2 : ¬ ((i : Int) < 0) := by omega
   have e3 : ¬ ((i : Int) ≥ (n : Int)) := by omega
